@@ -2,6 +2,7 @@
   Line-protocol adapter for the vesting family (v.* ops).
 -/
 import C4E.Vesting
+import C4E.Upgrade
 import C4E.Proto
 namespace C4E.Drv.Vest
 open C4E C4E.Vest C4E.Proto C4E.CoinList
@@ -200,6 +201,50 @@ def step (w : W) (toks : List String) : W × String :=
     match updateDenom w.st (auth = "gov") (unesc d) with
     | some s => ({ w with st := s }, "ok denom=" ++ esc s.denom)
     | none => (w, "err denom=" ++ esc w.st.denom)
+  | ["v.up.split", l1, l2, l3, l4] =>
+    match int? l1, int? l2, int? l3, int? l4 with
+    | some a, some b, some c, some d =>
+      let showVts := fun (s : State) => "[" ++ ";".intercalate ((sortBy (fun x y => x.name < y.name) s.vtypes).map fun v => s!"{esc v.name}~{v.lockup}~{v.vesting}~{v.free}") ++ "]"
+      match w.st.pools.get? Upgrade.owner with
+      | none => (w, s!"ok changed=0 vts={showVts w.st} {showState w}")
+      | some ps =>
+        match Upgrade.modifyPools w.st.vtypes ps (a, b, c, d) with
+        | none => (w, s!"ok changed=0 vts={showVts w.st} {showState w}")
+        | some (vts, ps') =>
+          let w' := { w with st := ({ w.st with vtypes := vts }).setPools Upgrade.owner ps' }
+          (w', s!"ok changed=1 vts={showVts w'.st} {showState w'}")
+    | _, _, _, _ => (w, "bad-op")
+  | ["v.up.traces"] =>
+    let w' := { w with st := { w.st with traces := w.st.traces.map (fun kv => (kv.1, Upgrade.updateTrace kv.2)) } }
+    (w', "ok " ++ showState w')
+  | "v.up.accounts" :: rest =>
+    -- rest: for each of the four hard-coded accounts the (start, end) a shifted schedule would get
+    let nums := rest.filterMap int?
+    let pairs := [(nums.getD 0 0, nums.getD 1 0), (nums.getD 2 0, nums.getD 3 0), (nums.getD 4 0, nums.getD 5 0), (nums.getD 6 0, nums.getD 7 0)]
+    let accts := (Upgrade.shiftedAccounts.zip pairs).foldl (fun (m : AList Acct) ap =>
+      match m.get? ap.1 with
+      | some a => m.set ap.1 (Upgrade.shiftAccount a ap.2.1 ap.2.2)
+      | none => m) w.st.accts
+    let w' := Upgrade.shiftedAccounts.foldl track { w with st := { w.st with accts := accts } }
+    (w', "ok " ++ showState w')
+  | ["v.up.v2pool", owner, name, vtype, ls, le, ini, wd, sent] =>
+    match int? ls, int? le, int? ini, int? wd, int? sent with
+    | some ls, some le, some ini, some wd, some sent =>
+      let p : Pool := { name := unesc name, vtype := unesc vtype, lockStart := ls, lockEnd := le, initially := ini, withdrawn := wd, sent := sent }
+      let s1 := w.st.setPools owner (((w.st.pools.get? owner).getD []) ++ [p])
+      ({ track w owner with st := { s1 with bal := s1.bal.set s1.modAddr (CoinList.add (s1.balance s1.modAddr) (nz [(s1.denom, p.locked)])) } }, ".")
+    | _, _, _, _, _ => (w, "bad-op")
+  | ["v.up.migrate3"] =>
+    let w' := { w with st := { w.st with pools := w.st.pools.map (fun kv => (kv.1, kv.2.map Upgrade.migrateV3Pool)) } }
+    (w', "ok " ++ showState w')
+  | ["v.up.v1pool", owner, name, vtype, ls, le, vested, wd, lmw, lmv] =>
+    match int? ls, int? le, int? vested, int? wd, int? lmw, int? lmv with
+    | some ls, some le, some ve, some wd, some lmw, some lmv =>
+      let p := Upgrade.migrateV2Pool (unesc name) (unesc vtype) ls le ve wd lmw lmv
+      let s1 := w.st.setPools owner (((w.st.pools.get? owner).getD []) ++ [p])
+      ({ track w owner with st := { s1 with bal := s1.bal.set s1.modAddr (CoinList.add (s1.balance s1.modAddr) (nz [(s1.denom, lmv - lmw)])) } }, ".")
+    | _, _, _, _, _, _ => (w, "bad-op")
+  | ["v.up.migrate2"] => (w, "ok " ++ showState w)
   | ["v.end"] => (w, ".")
   | _ => (w, "bad-op")
 
